@@ -4,6 +4,15 @@ import json, os
 V = os.path.dirname(os.path.dirname(os.path.abspath(__file__)))
 
 CHECKS = {
+ "C08": dict(
+    technique="runtime oracle: reading sets enumerated by an independent name model vs the real resolution API on the prefix x unit x plural cross product, fresh vs aged registries, hash-seed digest comparison",
+    text="Every string p+u+s (72 prefix spellings + none, ~917 unit spellings, optional s; complete in thorough, stratified with all ambiguous and exact strings in quick) is "
+         "resolved by the real get_name/get_symbol/parse_units/getattr/in and converted numerically; the answer must be the exact spelling's unit, else one of the model's readings "
+         "(the prefix factor applied exactly once), else UndefinedUnitError; the same strings are asked of a registry aged by earlier lookups; choices for ambiguous strings are "
+         "digested per shard and compared across PYTHONHASHSEEDs; double-prefix strings, case-insensitive variants, random non-units, delta readings, and generated registries over a "
+         "2-letter alphabet where all strings up to length 6 are asked of a fresh registry each.",
+    note="trusts the name model (prefix/unit spelling tables read independently from the definition files); one recorded finding (auto-registered prefixed units)",
+    ref="4/C08"),
  "C05": dict(
     technique="runtime oracle: reference-model root values vs observed == != < <= > >= hash on all pairs of pools; relation laws checked on the observed relation",
     text="Pools of quantities constructed to contain many physically equal members (every dimension class, a temperature pool built by inverse affine maps "
